@@ -262,6 +262,7 @@ theorem step_mono {cfg : Cfg} {s s' : St} {a : Act} (hJP : JP s) (h : step cfg s
   | task i => exact stepTask_mono h c hc ha
   | back c0 => exact stepBack_mono hJP h c hc ha
   | spawn m d ev => simp [step] at h; subst h; exact ha
+  | create d tag => simp [step] at h; subst h; exact ha
   | release c0 =>
     simp only [step] at h
     split at h
@@ -309,6 +310,7 @@ theorem step_nconns {cfg : Cfg} {s s' : St} {a : Act} (h : step cfg s a = some s
       all_goals (try (injection h with h; subst h))
       all_goals simp
   | spawn m d ev => simp [step] at h; subst h; simp
+  | create d tag => simp [step] at h; subst h; simp
   | release c0 => simp only [step] at h; split at h <;> simp at h; subst h; simp
   | kick c0 => simp only [step] at h; split at h <;> simp at h; subst h; simp
   | drop c0 => simp only [step] at h; split at h <;> simp at h; subst h; simp
@@ -382,6 +384,7 @@ theorem step_JP {cfg : Cfg} {s s' : St} {a : Act} (hJP : JP s) (h : step cfg s a
   | task i => exact stepTask_JP hJP h
   | back c0 => exact stepBack_JP hJP h
   | spawn m d ev => simp [step] at h; subst h; exact hJP
+  | create d tag => simp [step] at h; subst h; exact hJP
   | release c0 =>
     simp only [step] at h
     split at h
